@@ -692,11 +692,13 @@ def atomic_write_file(filename: Filename, data):
         # Any other failure to read or copy the permission bits must not be
         # ignored: renaming now would silently replace the file by one with
         # default permissions (e.g. make a private file world-readable).
-        os.chmod(str(temp_filename), st.st_mode)
+        # chown before chmod: changing the group of a file clears its
+        # set-user-ID / set-group-ID bits, so the mode must be set last.
         try:
             os.chown(str(temp_filename), -1, st.st_gid)
         except OSError:
             pass # not a member of the group
+        os.chmod(str(temp_filename), st.st_mode)
     os.rename(str(temp_filename), str(filename))
 
 
